@@ -112,8 +112,9 @@ def reset_sparse_chemical_data(sparse, data):
     if data is sparse: return
     dct = sparse.dct
     if data.__class__ is SparseVector:
-        data_dct = data.dct
-        if data_dct.__class__ is not dict: data_dct = data_dct.copy() # A view: evaluate before clearing
+        # Evaluate a view, and copy a plain dictionary too: `dct` may be a view wrapped around it
+        # (stream.imass[...] = stream.mol), in which case clearing `dct` would empty the data first.
+        data_dct = data.dct.copy()
         dct.clear()
         dct.update(data_dct)
     else:
